@@ -51,6 +51,11 @@ type w3Body struct {
 	GOP         int        `json:"gop"`
 	AudioMs     int64      `json:"audio_ms"`
 	AudioLagMs  int64      `json:"audio_lag_ms,omitempty"` // audio units reach the stream that much later than video units of the same time
+	// the timestamps of the audio units are that much after those of the video units (a
+	// publisher whose second track starts a few milliseconds after its first key frame)
+	AudioOffMs int64 `json:"audio_off_ms,omitempty"`
+	// "" = LPCM 8 kHz; "mp3" = MPEG-1 layer III frames of 1152 samples at 44.1 kHz (90 kHz clock)
+	AudioCodec  string     `json:"audio_codec,omitempty"`
 	SegmentMs   int64      `json:"segment_ms"`
 	PartMs      int64      `json:"part_ms"`
 	MaxPartSize int        `json:"max_part_size"`
@@ -81,6 +86,11 @@ func (w *w3World) Gen(rng *rand.Rand, property, tier string) (any, simrt.Sched) 
 	b.Audio = !b.Video || rng.Intn(3) != 0
 	if b.Video && b.Audio {
 		b.AudioLagMs = []int64{0, 0, 30, 250, 700}[rng.Intn(5)]
+		b.AudioOffMs = []int64{0, 0, 5, 13}[rng.Intn(4)]
+	}
+	if b.Audio && rng.Intn(4) == 0 {
+		b.AudioCodec = "mp3"
+		b.AudioMs = 26
 	}
 	nph := 1 + rng.Intn(3)
 	for i := 0; i < nph; i++ {
@@ -234,6 +244,9 @@ func (h *w3Harness) record() bool {
 	}
 	if b.Audio {
 		aMedia = &description.Media{Type: description.MediaTypeAudio, Formats: []format.Format{&format.LPCM{PayloadTyp: 97, BitDepth: 16, SampleRate: 8000, ChannelCount: 1}}}
+		if b.AudioCodec == "mp3" {
+			aMedia.Formats = []format.Format{&format.MPEG1Audio{}}
+		}
 		desc.Medias = append(desc.Medias, aMedia)
 	}
 	strm := &stream.Stream{OrigDesc: desc, WriteQueueSize: 512, RTPMaxPayloadSize: 1450, Parent: w3Log{}}
@@ -306,7 +319,7 @@ func (h *w3Harness) record() bool {
 		for n := 0; n < ph.Frames; n++ {
 			// next event in time order: video frame or audio frame
 			vt := time.Duration(vFrame) * time.Duration(b.FrameMs) * time.Millisecond
-			at := time.Duration(aFrame) * time.Duration(b.AudioMs) * time.Millisecond
+			at := time.Duration(aFrame)*time.Duration(b.AudioMs)*time.Millisecond + time.Duration(b.AudioOffMs)*time.Millisecond
 			// units are written in arrival order; audio may lag behind video of the same time
 			atArr := at + time.Duration(b.AudioLagMs)*time.Millisecond
 			isVideo := b.Video && (!b.Audio || vt <= atArr)
@@ -345,13 +358,25 @@ func (h *w3Harness) record() bool {
 				h.written[len(h.written)-1].Seq = simrt.Seq()
 				vFrame++
 			} else {
-				nsamples := int(b.AudioMs * 8)
-				pl := make([]byte, nsamples*2)
-				binary.BigEndian.PutUint32(pl, uint32(id))
-				pts := int64(t) * 8000 / int64(time.Second)
+				var payload unit.Payload
+				var pts int64
+				if b.AudioCodec == "mp3" {
+					// MPEG-1 layer III, 128 kbit/s, 44.1 kHz, no padding: 417 bytes, 1152 samples
+					fr := make([]byte, 417)
+					copy(fr, []byte{0xff, 0xfb, 0x90, 0x00})
+					binary.BigEndian.PutUint32(fr[4:], uint32(id))
+					payload = unit.PayloadMPEG1Audio{fr}
+					pts = int64(t) * 90000 / int64(time.Second)
+				} else {
+					nsamples := int(b.AudioMs * 8)
+					pl := make([]byte, nsamples*2)
+					binary.BigEndian.PutUint32(pl, uint32(id))
+					payload = unit.PayloadLPCM(pl)
+					pts = int64(t) * 8000 / int64(time.Second)
+				}
 				h.written = append(h.written, w3Written{ID: id, PTS: pts, NTP: ntp, Epoch: epoch})
 				simrt.Rec("w3.write", "a", "", id, pts, int64(ntpOff))
-				sub.WriteUnit(aMedia, aMedia.Formats[0], &unit.Unit{PTS: pts, NTP: ntp, Payload: unit.PayloadLPCM(pl)})
+				sub.WriteUnit(aMedia, aMedia.Formats[0], &unit.Unit{PTS: pts, NTP: ntp, Payload: payload})
 				h.written[len(h.written)-1].Seq = simrt.Seq()
 				aFrame++
 			}
